@@ -282,10 +282,12 @@ func checkC05(ctx *Ctx) {
 		if !ctx.Mine(pi) {
 			continue
 		}
-		if ctx.Quick() && (pi/ctx.NShards)%3 != int(ctx.Seed)%3 {
-			continue // quick explores a seed-dependent third of the pairs
-		}
 		a, b := cmds[p.a], cmds[p.b]
+		// quick explores every pair of two instances of the same command family (the classic lost update /
+		// double delivery) and a seed-dependent third of the other pairs
+		if ctx.Quick() && !strings.EqualFold(a[0], b[0]) && (pi/ctx.NShards)%3 != int(ctx.Seed)%3 {
+			continue
+		}
 		ctx.SetCurrent(fmt.Sprintf("C05 pair A=%v B=%v", a, b))
 		ab := c05Serial(a, b)
 		baRaw := c05Serial(b, a)
